@@ -23,18 +23,22 @@
 (* registry or layout; image.exportTar only writes a local tar file        *)
 (* (neither a registry nor a layout; see design.d/C19.md); every other     *)
 (* function is read-only.                                                  *)
-(* Deviations: option tables other than digestTags / forceRecursive, the   *)
-(* repo.ls paging options and <manifest>:ratelimitWait are not in the      *)
-(* alphabet (same bindings as image.copy / repo.ls / image.ratelimitWait). *)
+(* Deviations: of the repo.ls options only `limit`; the <ref>:digest       *)
+(* setter is not in the alphabet.                                          *)
 (***************************************************************************)
-CopyOps == {"image.copy", "image.copy+dt", "image.copy+fr"}
+\* image.copy with its option table: digestTags, forceRecursive (documented), platforms,
+\* includeExternal (accepted by imageCopy, not documented)
+CopyOps == {"image.copy", "image.copy+dt", "image.copy+fr", "image.copy+pf", "image.copy+ie"}
 WriteOps == {"tag.delete", "m:delete", "manifest.put", "m:put", "blob.put", "b:put", "image.importTar"} \cup CopyOps
 ExportOps == {"image.exportTar"}
+\* method forms (<object>:fn) are operations of their own: a second entry point may get a second
+\* implementation (seeded C19-4)
 ManifestGetOps == {"manifest.get", "image.manifest", "m:get"}
 ManifestListOps == {"manifest.getList", "image.manifestList"}
-ManifestHeadOps == {"manifest.head", "image.manifestHead"}
-ReadOps == {"repo.ls", "tag.ls", "image.config", "m:config", "blob.get", "blob.head", "reference.new",
-            "r:tag", "r:digest", "reference.close", "m:export", "c:export", "m:ratelimit", "image.ratelimitWait"}
+ManifestHeadOps == {"manifest.head", "image.manifestHead", "m:head"}
+ReadOps == {"repo.ls", "repo.ls+limit", "tag.ls", "image.config", "m:config", "blob.get", "blob.head", "b:get", "b:head",
+            "reference.new", "r:tag", "r:digest", "reference.close", "r:close", "m:export", "c:export", "m:ratelimit",
+            "image.ratelimitWait", "m:ratelimitWait"}
            \cup ManifestGetOps \cup ManifestListOps \cup ManifestHeadOps
 GuardOps == {"if.head", "ifnot.head"}
 CtlOps == {"error", "foreach"} \cup GuardOps
